@@ -9,7 +9,7 @@ extern "C" {
 int c02_init(void); int c02_has_other(int); int c02_type_ok(int);
 int c02_append(int, const char *); int c02_prepend(int, const char *); int c02_insert_at(int, const char *, int);
 const char *c02_remove(int, const char *); const char *c02_remove_at(int, int); const char *c02_get(int, int);
-const char *c02_find(int, const char *); int c02_contains(int, const char *); int c02_index(int, const char *);
+const char *c02_find(int, const char *); int c02_contains(int, const char *); int c02_index(int, const char *); int c02_index_stored(int, long); int c02_contains_stored(int, long);
 int c02_count(int, int); int c02_reverse(int);
 const char *c02_seq_get(int, int); const char *c02_seq_get_neg(int, int); const char *c02_seq_to_array(int, int);
 const char *c02_seq_iter(int, int, int, int, int);
@@ -213,6 +213,22 @@ struct Interp {
             }
             return;
         }
+        if (n == "index_stored") {
+            // index()/contains() with one of the list's own elements as the probe: the answer is still the FIRST equal element
+            if (cur.empty()) return;
+            long k = ((op.i(0) % (long)cur.size()) + (long)cur.size()) % (long)cur.size();
+            if (!cur[(size_t)k]) return;
+            long at = -1;
+            for (size_t i = 0; i < cur.size(); i++) if (cur[i] && *cur[i] == *cur[(size_t)k]) { at = (long)i; break; }
+            for (int c = 0; c < 3; c++) {
+                int r = LA(c02_index_stored(c, k));
+                VT_CHECK(ctx, r == at, "mismatch", "index:" << kCls[c] << "; index(get(" << k << ")) returned " << r << " expected " << at);
+                VT_CHECK(ctx, LA(c02_contains_stored(c, k)) == 1, "mismatch", "contains:" << kCls[c] << "; contains(get(" << k << ")) is FALSE");
+            }
+            if (at != k) { ctx.label("index:probe-is-a-later-duplicate-stored-in-the-list"); }
+            else ctx.label("index:probe-is-a-stored-element");
+            return;
+        }
         if (n == "index" || n == "find" || n == "contains") {
             std::string w = W(op);
             long at = -1;
@@ -297,7 +313,8 @@ rc::Gen<Op> gen_op() {
         if (k < 50) return mk("remove", {w});
         if (k < 60) return mk("remove_at", {*gen_pos(), *range(-12, 12)});
         if (k < 66) return mk("get", {*gen_pos(), *range(-12, 12)});
-        if (k < 70) return mk("index", {w});
+        if (k < 68) return mk("index", {w});
+        if (k < 70) return mk("index_stored", {*range(0, 11)});
         if (k < 73) return mk("find", {w});
         if (k < 75) return mk("contains", {w});
         if (k < 83) return mk("reverse");
